@@ -107,6 +107,19 @@ Outcome RunScenario(const std::vector<uint8_t>& bytes, uint64_t salt, Stats& st_
     };
     for (unsigned i = 0; i < n_honest; ++i) add_peer(true);
     for (unsigned i = 0; i < n_attack; ++i) add_peer(false);
+    // optionally one more honest peer that relays by txid (pre-BIP339 software): the reason why txids of failed witness txs are kept out of the reject filter
+    int legacy = -1;
+    if (s.chance(110)) {
+        PeerSpec ps;
+        ps.conn = s.boolean() ? ConnectionType::INBOUND : ConnectionType::OUTBOUND_FULL_RELAY;
+        ps.wtxidrelay = false;
+        ps.version = 70015;
+        legacy = net.AddPeer(ps);
+        bool ok = net.Handshake(legacy);
+        assert(ok);
+        st.note("honest txid-relay peer", legacy);
+        st.mix(uint64_t(77));
+    }
     std::set<int> attackers(attack.begin(), attack.end());
 
     // ---------------------------------------------------------------- the transaction family
@@ -282,13 +295,19 @@ Outcome RunScenario(const std::vector<uint8_t>& bytes, uint64_t salt, Stats& st_
 
     // ---------------------------------------------------------------- closing phase
     const bool g_in_pool_before_closing = in_pool(G);
-    // Mode B is not used after a witness-stripped copy was stored as an orphan: in that state the unchanged code treats G's txid as already
-    // known (the stripped orphan's wtxid equals G's txid), so G is never fetched as a missing parent. That behaviour is asserted separately by
-    // the target c64_stripped_orphan (suspected genuine defect, reported to the coordinator); here it is excluded by construction.
-    const bool want_b = s.chance(110);
-    const bool mode_b = !g_in_pool_before_closing && !in_pool(C) && want_b && !stripped_orphan_delivered;
-    if (want_b && stripped_orphan_delivered && !g_in_pool_before_closing && primary) st.cls("mode-B-skipped-stripped-orphan");
+    // Closing modes: A  = an honest wtxid-relay peer announces G by wtxid (always allowed);
+    //                A2 = an honest txid-relay peer announces G by txid;   B = an honest peer announces G's child, G is fetched as missing parent (by txid).
+    // The two txid-keyed modes are used only if no same-txid copy was ever delivered while G's parent was unknown: such a copy is stored as an orphan, and
+    // the unchanged code then (i) treats txid(G) as already known if the copy is witness-stripped (its wtxid equals the txid) and (ii) forgets every pending
+    // txid-keyed request for G when the copy enters the orphanage (ForgetTxHash(txid)). Both are asserted by the probe target c64_stripped_orphan
+    // (suspected genuine defect, reported to the coordinator) and excluded here by construction.
+    const unsigned want = s.range<unsigned>(0, 2);
+    const bool txid_modes_ok = !variant_was_orphan && !g_in_pool_before_closing;
+    const bool mode_b = want == 2 && txid_modes_ok && !in_pool(C);
+    const bool mode_a2 = want == 1 && txid_modes_ok && legacy >= 0;
+    if (want != 0 && !txid_modes_ok && primary) st.cls("txid-mode-skipped");
     int h = honest[s.index(honest.size())];
+    if (mode_a2) h = legacy;
     knows[h].insert(G->GetWitnessHash().ToUint256());
     if (has_parent) knows[h].insert(P->GetWitnessHash().ToUint256());
     if (mode_b) {
@@ -298,12 +317,16 @@ Outcome RunScenario(const std::vector<uint8_t>& bytes, uint64_t salt, Stats& st_
         net.Send(h, NetMsgType::INV, std::vector<CInv>{CInv(MSG_WTX, C->GetWitnessHash().ToUint256())});
         st.note("closing B: honest peer", h, " announces child C (G must be fetched as its missing parent)");
         st.cls("closing-mode-B");
+    } else if (mode_a2) {
+        net.Send(h, NetMsgType::INV, std::vector<CInv>{CInv(MSG_TX, G->GetHash().ToUint256())});
+        st.note("closing A2: honest txid-relay peer", h, " announces G by txid");
+        st.cls("closing-mode-A2");
     } else {
         net.Send(h, NetMsgType::INV, std::vector<CInv>{CInv(MSG_WTX, G->GetWitnessHash().ToUint256())});
         st.note("closing A: honest peer", h, " announces G");
         st.cls("closing-mode-A");
     }
-    st.mix(uint64_t(50 + mode_b));
+    st.mix(uint64_t(50 + mode_b + 2 * mode_a2));
     answer_requests();
     // request scheduling: 2 s (non-preferred) + 2 s (txid request while wtxid peers exist); an attacker that became a candidate for the
     // same txid (by sending the child) may hold the request for 60 s each before the honest peer is asked.
@@ -318,7 +341,7 @@ Outcome RunScenario(const std::vector<uint8_t>& bytes, uint64_t salt, Stats& st_
     st.note("closing waited ", waited, "s -> G ", in_pool(G) ? "in pool" : "NOT in pool");
     if (!in_pool(G)) {
         out.censored = true;
-        out.what = std::string("genuine tx not in the mempool ") + (mode_b ? "(mode B: parent fetch by txid)" : "(mode A: wtxid announcement)") +
+        out.what = std::string("genuine tx not in the mempool ") + (mode_b ? "(mode B: parent fetch by txid)" : mode_a2 ? "(mode A2: txid announcement by a txid-relay peer)" : "(mode A: wtxid announcement)") +
                    " after " + std::to_string(waited) + "s; variant_before=" + std::to_string(variant_received_before_G) + " orphan_variant=" + std::to_string(variant_was_orphan);
     }
     if (primary) {
@@ -367,14 +390,15 @@ VERIF_TARGET(c64_malleated, nullptr, 40, 400,
 //   index 0: control -- an honest peer announces the child C of G; G and its parent P are fetched as missing parents and all enter the pool
 //   index 1: before that, an attacker sends an invalid-witness copy of G (extra stack item) while P is unknown (the copy becomes an orphan)
 //   index 2: the same with a witness-STRIPPED copy, whose wtxid equals G's txid
+//   index 3: the invalid-witness copy arrives (as orphan) after the child was fetched, while the by-txid request for G is pending
 VERIF_TARGET(c64_stripped_orphan, nullptr, 0, 8,
              "three fixed scenarios (control / invalid-witness orphan copy / witness-stripped orphan copy) followed by an honest announcement of G's child; G must be "
              "fetched as missing parent and accepted")
 {
-    verif::set_enum_total(3);
+    verif::set_enum_total(4);
     int64_t idx = verif::enum_index();
-    if (idx < 0) idx = s.range<int>(0, 2);
-    if (idx > 2) return;
+    if (idx < 0) idx = s.range<int>(0, 3);
+    if (idx > 3) return;
     auto simp = std::make_unique<ChainSim>(ChainSimOpts{});
     ChainSim& sim = *simp;
     sim.LoadBase(112);
@@ -396,7 +420,7 @@ VERIF_TARGET(c64_stripped_orphan, nullptr, 0, 8,
     RefCoin gc{G->vout[0].nValue, P2WSH_OP_TRUE, 0, false};
     CTransactionRef C = MakeTransactionRef(sim.MakeTx({{COutPoint(G->GetHash(), 0), gc}}, {CTxOut(gc.value - 50000, P2WSH_OP_TRUE)}));
     auto in_pool = [&](const CTransactionRef& t) { return sim.mempool().exists(t->GetWitnessHash()); };
-    if (idx > 0) {
+    if (idx == 1 || idx == 2) {
         CTransactionRef v = MakeVariant(G, idx == 1 ? VK::EXTRA_ITEM : VK::STRIPPED);
         assert(v->GetHash() == G->GetHash() && v->GetWitnessHash() != G->GetWitnessHash());
         net.SendRaw(m, NetMsgType::TX, SerTx(*v));
@@ -429,14 +453,25 @@ VERIF_TARGET(c64_stripped_orphan, nullptr, 0, 8,
         }
     };
     serve();
+    if (idx == 3) {
+        // let the node fetch C first (it becomes an orphan and the by-txid request for G is scheduled), then the attacker's copy arrives
+        net.Advance(2); waited += 2; net.TickAll(); serve();
+        CTransactionRef v = MakeVariant(G, VK::EXTRA_ITEM);
+        net.SendRaw(m, NetMsgType::TX, SerTx(*v));
+        st.note("attacker sends extra-item copy of G (stored as orphan) while the by-txid request for G is pending; C in orphanage=", !in_pool(C));
+    }
     while (!in_pool(G) && waited < 12 + 64) { net.Advance(2); waited += 2; net.TickAll(); serve(); }
     st.steps++;
     st.note("waited ", waited, "s: G requested=", g_requested, " G in pool=", in_pool(G), " C in pool=", in_pool(C));
-    st.cls(idx == 0 ? "probe-control" : idx == 1 ? "probe-invalid-witness-orphan" : "probe-stripped-orphan");
+    st.cls(idx == 0 ? "probe-control" : idx == 1 ? "probe-invalid-witness-orphan" : idx == 2 ? "probe-stripped-orphan" : "probe-orphan-copy-during-request");
     st.mix(uint64_t(idx));
     st.nontrivial = idx > 0;
     if (idx < 2) {
         VCHECK(in_pool(G) && in_pool(C), "c64.probe-control", "control scenario failed: G/C not accepted", "idx", idx, "requested", g_requested);
+    } else if (idx == 3) {
+        VCHECK(in_pool(G), "c64.orphan-copy-cancels-parent-request",
+               "a same-txid invalid-witness copy stored as an orphan made the node forget its pending by-txid request for G (ForgetTxHash(txid)); G never fetched;",
+               "G requested from the honest peer:", g_requested, "waited", waited, "s");
     } else {
         VCHECK(in_pool(G), "c64.stripped-orphan-masks-parent",
                "after a witness-stripped copy of G was stored as an orphan, G is treated as already known and never fetched as the missing parent of its child;",
